@@ -93,6 +93,19 @@ def svc_hr_roundtrip(env, f, data):
     return HRParser(env).parse(f.serialize())
 
 
+def svc_script_declarations(env, f):
+    from pysmt.smtlib.script import smtlibscript_from_formula
+    import pysmt.smtlib.commands as smtcmd
+    sc = smtlibscript_from_formula(f)
+    out = []
+    for c in sc.commands:
+        if c.name == smtcmd.DECLARE_SORT:
+            out.append("sort " + c.args[0].name)
+        elif c.name in (smtcmd.DECLARE_FUN, smtcmd.DECLARE_CONST):
+            out.append("fun " + c.args[0].symbol_name())
+    return "\n".join(out)
+
+
 def _rw():
     import pysmt.rewritings as rw
     return rw
@@ -111,6 +124,8 @@ SERVICES = {
     "size": lambda env, f, d: env.sizeo.get_size(f, d),
     "to_smtlib": lambda env, f, d: __import__("pysmt.smtlib.printers", fromlist=["to_smtlib"]).to_smtlib(f, daggify=bool(d)),
     "serialize": lambda env, f, d: env.serializer.serialize(f),
+    # the order in which a script declares sorts and symbols (a list: the order is part of the printed text)
+    "script_declarations": lambda env, f, d: svc_script_declarations(env, f),
     "parse_print": svc_parse_print,
     "hr_roundtrip": svc_hr_roundtrip,
     "nnf": lambda env, f, d: _rw().nnf(f, env),
@@ -123,7 +138,8 @@ SERVICES = {
 }
 # services that create no fresh symbol: a repeated call must return the very same object
 IDEMPOTENT_OBJECT = {"simplify", "substitute", "nnf", "aig", "parse_print", "free_vars", "atoms"}
-BOOL_ONLY = {"atoms", "nnf", "cnf", "prenex", "aig", "ackermann", "propagate_toplevel", "parse_print", "qelim_shannon"}
+BOOL_ONLY = {"atoms", "nnf", "cnf", "prenex", "aig", "ackermann", "propagate_toplevel", "parse_print", "qelim_shannon",
+             "script_declarations"}
 
 
 def run_call(env, call, cache=None):
